@@ -334,7 +334,14 @@ const VAL_UNI: &[&str] = &["é<", "日本&語", "😀'", "ß>ß", "\u{0}", "a\u{
 
 /// never form a delimiter (opening or closing) inside literal text
 fn sanitize(s: &str) -> String {
-    s.replace("{{", "{ {").replace("{%", "{ %").replace("{#", "{ #").replace("}}", "} }").replace("%}", "% }").replace("#}", "# }")
+    let mut cur = s.to_string();
+    loop {
+        let next = cur.replace("{{", "{ {").replace("{%", "{ %").replace("{#", "{ #").replace("}}", "} }").replace("%}", "% }").replace("#}", "# }");
+        if next == cur {
+            return cur;
+        }
+        cur = next;
+    }
 }
 
 impl Gen<'_> {
